@@ -283,9 +283,9 @@ func (t *scannerTr) initialState() string {
 // Functions whose bodies the hand-written model mirrors; pinned by normalised source text.
 // A change here is reported as a broken tie (the model's counterpart must be re-validated).
 var pinned = map[string]string{
-	"caseWhitespace": "func caseWhitespace(c byte) byte {\n\tif isWhitespace(c) {\n\t\treturn c\n\t} else {\n\t\treturn otherByte(c)\n\t}\n}",
-	"caseNewLine":    "func caseNewLine(c byte) byte {\n\tif IsNewLine(c) {\n\t\treturn c\n\t} else {\n\t\treturn otherByte(c)\n\t}\n}",
-	"otherByte":      "func otherByte(b byte) byte {\n\tif b == 255 {\n\t\treturn 254\n\t} else {\n\t\treturn b + 1\n\t}\n}",
+	"caseWhitespace":    "func caseWhitespace(c byte) byte {\n\tif isWhitespace(c) {\n\t\treturn c\n\t} else {\n\t\treturn otherByte(c)\n\t}\n}",
+	"caseNewLine":       "func caseNewLine(c byte) byte {\n\tif IsNewLine(c) {\n\t\treturn c\n\t} else {\n\t\treturn otherByte(c)\n\t}\n}",
+	"otherByte":         "func otherByte(b byte) byte {\n\tif b == 255 {\n\t\treturn 254\n\t} else {\n\t\treturn b + 1\n\t}\n}",
 	"readSchemaWithJsc": "func (s *Scanner) readSchemaWithJsc() (uint, *jerr.JApiError) {\n\tfc := s.file.Content()\n\tfile := fs.NewFile(\"\", fc.Sub(s.curIndex, fc.LenIndex()))\n\n\tl, err := jschema.FromFile(file).Len()\n\tif err != nil {\n\t\terr := kit.ConvertError(file, err)\n\t\treturn 0, s.japiError(err.Message(), s.curIndex+bytes.Index(err.Index()))\n\t}\n\treturn l, nil\n}",
 	"readEnumWithJsc":   "func (s *Scanner) readEnumWithJsc() (uint, *jerr.JApiError) {\n\tfc := s.file.Content()\n\tfile := fs.NewFile(\"\", fc.Sub(s.curIndex, fc.LenIndex()))\n\n\tl, err := enum.FromFile(file).Len()\n\tif err != nil {\n\t\terr := kit.ConvertError(file, err)\n\t\treturn 0, s.japiError(err.Message(), s.curIndex+bytes.Index(err.Index()))\n\t}\n\treturn l, nil\n}",
 }
@@ -982,78 +982,62 @@ func (t *scannerTr) inlineWith(fd *ast.FuncDecl, call *ast.CallExpr, env *trEnv,
 // lexeme-event.go tables
 
 func genLexemeEvents(repo string) string {
-	files := parseDir(filepath.Join(repo, "scanner"))
-	methods := map[string]*ast.FuncDecl{}
-	for _, f := range files {
-		for _, d := range f.Decls {
-			if fd, ok := d.(*ast.FuncDecl); ok && fd.Recv != nil && src(fd.Recv.List[0].Type) == "LexemeEventType" {
-				methods[fd.Name.Name] = fd
-			}
-		}
-	}
+	// The four methods of LexemeEventType are finite functions of the event: they are EVALUATED on the
+	// working tree (a few lines compiled against it), not parsed, so any rewriting of their bodies
+	// that keeps their results is invisible here and any change of a result is not.
 	lexKinds := map[string]string{"Keyword": "LKeyword", "Parameter": "LParameter", "Annotation": "LAnnotation",
 		"Schema": "LSchema", "Json": "LJson", "Text": "LText", "ContextExplicitOpening": "LContextOpen",
 		"ContextExplicitClosing": "LContextClose", "Enum": "LEnum"}
+	var kindNames []string
+	for k := range lexKinds {
+		kindNames = append(kindNames, k)
+	}
+	sort.Strings(kindNames)
+	var pb strings.Builder
+	pb.WriteString("package main\n\nimport (\n\t\"fmt\"\n\n\t\"github.com/jsightapi/jsight-api-core/scanner\"\n)\n\n")
+	pb.WriteString("func lt(e scanner.LexemeEventType) (r string) {\n\tdefer func() {\n\t\tif recover() != nil {\n\t\t\tr = \"panic\"\n\t\t}\n\t}()\n\tswitch e.ToLexemeType() {\n")
+	for _, k := range kindNames {
+		fmt.Fprintf(&pb, "\tcase scanner.%s:\n\t\treturn %q\n", k, k)
+	}
+	pb.WriteString("\t}\n\treturn \"other\"\n}\n\nfunc main() {\n")
+	for _, e := range eventNames {
+		fmt.Fprintf(&pb, "\tfmt.Println(%q, scanner.%s.IsBeginning(), scanner.%s.IsEnding(), scanner.%s.IsSingle(), lt(scanner.%s))\n", e, e, e, e, e)
+	}
+	pb.WriteString("}\n")
+	out := runAgainstRepo(repo, pb.String(), "evaluating the LexemeEventType methods")
+	type row struct{ beg, end, single, lt string }
+	rows := map[string]row{}
+	for _, l := range strings.Split(strings.TrimSpace(out), "\n") {
+		f := strings.Fields(l)
+		if len(f) != 5 {
+			panic(failure{"unexpected line from the LexemeEventType evaluation: " + l})
+		}
+		rows[f[0]] = row{f[1], f[2], f[3], f[4]}
+	}
 	var b strings.Builder
-	b.WriteString("(* GENERATED by tools/go2coq from /repo/scanner/lexeme-event.go — do not edit. *)\n")
+	b.WriteString("(* GENERATED by tools/go2coq from /repo/scanner/lexeme-event.go (evaluated) — do not edit. *)\n")
 	b.WriteString("From JS Require Import Base.\n\n")
-	evalSwitch := func(name string, render func(ast.Expr) string) {
-		fd := methods[name]
-		if fd == nil || len(fd.Body.List) != 1 {
-			failf(fd, "LexemeEventType.%s: unexpected shape", name)
-		}
-		sw, ok := fd.Body.List[0].(*ast.SwitchStmt)
-		if !ok || src(sw.Tag) != fd.Recv.List[0].Names[0].Name {
-			failf(fd, "LexemeEventType.%s: expected a switch on the receiver", name)
-		}
-		res := map[string]string{}
-		def := ""
-		for _, c := range sw.Body.List {
-			cc := c.(*ast.CaseClause)
-			if len(cc.Body) != 1 {
-				failf(cc, "unexpected case body")
-			}
-			var val string
-			switch s := cc.Body[0].(type) {
-			case *ast.ReturnStmt:
-				val = render(s.Results[0])
-			case *ast.ExprStmt:
-				if call, ok := s.X.(*ast.CallExpr); ok && src(call.Fun) == "panic" {
-					val = "None"
-				} else {
-					failf(cc, "unexpected case body")
-				}
-			default:
-				failf(cc, "unexpected case body")
-			}
-			if cc.List == nil {
-				def = val
-			}
-			for _, l := range cc.List {
-				res[src(l)] = val
-			}
-		}
+	emit := func(name string, val func(r row) string) {
 		fmt.Fprintf(&b, "Definition ev_%s (e : event) :=\n  match e with\n", name)
 		for _, e := range eventNames {
-			v, ok := res[e]
+			r, ok := rows[e]
 			if !ok {
-				v = def
+				panic(failure{"no evaluation result for the event " + e})
 			}
-			if v == "" {
-				failf(fd, "no value for %s", e)
-			}
-			fmt.Fprintf(&b, "  | %s => %s\n", e, v)
+			fmt.Fprintf(&b, "  | %s => %s\n", e, val(r))
 		}
 		b.WriteString("  end.\n\n")
 	}
-	boolR := func(e ast.Expr) string { return src(e) }
-	evalSwitch("IsBeginning", boolR)
-	evalSwitch("IsEnding", boolR)
-	evalSwitch("IsSingle", boolR)
-	evalSwitch("ToLexemeType", func(e ast.Expr) string {
-		k, ok := lexKinds[src(e)]
+	emit("IsBeginning", func(r row) string { return r.beg })
+	emit("IsEnding", func(r row) string { return r.end })
+	emit("IsSingle", func(r row) string { return r.single })
+	emit("ToLexemeType", func(r row) string {
+		if r.lt == "panic" {
+			return "None"
+		}
+		k, ok := lexKinds[r.lt]
 		if !ok {
-			failf(e, "unknown lexeme type %s", src(e))
+			panic(failure{"unknown lexeme type " + r.lt})
 		}
 		return "Some " + k
 	})
